@@ -50,7 +50,7 @@ def generate(rng, tier):
     cases = []
     thorough = tier == "thorough"
     specs = specs_pool(rng, 40 if thorough else 10)
-    for k in range(5000 if thorough else 600):
+    for k in range(5000 * TH if thorough else 600):
         sp = rng.choice(specs)
         nodes = E.rand_doc(rng, sp, big=(k % 6 == 0), unknown_p=0.3)
         if not nodes:
